@@ -289,6 +289,8 @@ def judge_endpoints(ops, rep, ctx, clauses):
         elif k in ('eenc', 'eapi') and t[1] in encs:
             es = encs[t[1]]
             if es.broken:
+                if 'c06' in clauses:
+                    _check_dump(i, TableDump(st), None, F, 'encoder (after an earlier failed encode)')
                 continue
             huff = t[2] == '1'
             if k == 'eenc':
@@ -296,9 +298,13 @@ def judge_endpoints(ops, rep, ctx, clauses):
             else:
                 hs = _norm_api(t[3], t[4:])
             if not head.startswith('ok'):
-                if {'c01', 'c03', 'c09', 'c10', 'c15', 'c19'} & clauses:
+                malformed = k == 'eapi' and any(x.startswith('X') for x in t[4:])
+                if not malformed and {'c01', 'c03', 'c09', 'c10', 'c15', 'c19'} & clauses:
                     fail(i, 'encode-raised', 'encode raised %s' % head)
-                es.broken = True
+                if 'c06' in clauses:
+                    _check_dump(i, TableDump(st), None, F, 'encoder after an encode() that raised')
+                es.broken = True        # the caller broke the connection: nothing the peer can be compared with
+                es.c06_only = True
                 continue
             data = unhex(head[3:]) if len(head) > 2 else b''
             lastout[t[1]] = data
@@ -540,13 +546,13 @@ def _norm_api(cont, fs):
         items = {}
         for s in fs:
             k, n, v = s.split(':')
-            items[unhex(n)] = unhex(v)     # later duplicate keys overwrite (generator produces unique names)
-        items = list(items.items())
+            items[(k[1], unhex(n))] = unhex(v)     # 'a' and b'a' are different dict keys; same key twice overwrites
+        items = [(kk[1], vv) for kk, vv in items.items()]
         sp = [kv for kv in items if kv[0].startswith(b':')] + [kv for kv in items if not kv[0].startswith(b':')]
         return [(n, v, False) for n, v in sp]
     for s in fs:
         k, n, v = s.split(':')
-        sens = k[0] in 'NS' or (k[0] == '3' and k[1] in 't1')
+        sens = k[0] in 'NS' or (k[0] == '3' and k[1] in 't1y2')
         out.append((unhex(n), unhex(v), sens))
     return out
 
